@@ -71,3 +71,17 @@ Print Assumptions C08_init_idempotent.
 Print Assumptions C08_dispatch.
 Print Assumptions C08_binding_powers.
 Print Assumptions C08_adjacent_precedences.
+
+(* TRANSLATED FROM THE SOURCE ON EVERY RUN (Gen/ImplConsts.v, from operator.rs InfixOpManager::get_precidence): the binding
+   powers the model computes for a registered operator are the formula in the source text, and an unregistered one gets the
+   source's pair - for every precedence and associativity *)
+From EE Require Import ImplConsts.
+Theorem C08_binding_power_is_source : recognised = true /\
+  (forall tbl op c, infix_cfg_of tbl op = Some c -> binding_power tbl op = impl_bp (ic_prec c) (ic_right c)) /\
+  (forall tbl op, infix_cfg_of tbl op = None -> binding_power tbl op = impl_bp_unregistered).
+Proof.
+  split; [reflexivity|]. split.
+  - intros tbl op c H. unfold binding_power, impl_bp. rewrite H. cbn zeta. destruct (ic_right c); f_equal; lia.
+  - intros tbl op H. unfold binding_power. rewrite H. reflexivity.
+Qed.
+Print Assumptions C08_binding_power_is_source.
